@@ -118,7 +118,7 @@ var c01Families = &vlib.Check{
 		case 7, 8:
 			return &vlib.Case{Project: genDescriptionFamily(r)}
 		case 5, 6:
-			b = genAliasFamily(r)
+			b = genAliasFamily(r, true)
 		case 0:
 			b = genAllOfFamily(r)
 		case 1:
